@@ -450,7 +450,40 @@ func runC36(c *Ctx) {
 		cc := calls[0]
 		recv := cc.Common().Args[0]
 		fParent := G("parentGroup")
-		topMost := Cmp("upperParent.parentGroup==nil", VFieldOf(fParent, func(v ssa.Value) bool { return v == recv || Strip(v) == Strip(recv) }), token.EQL, isNilVal)
+		// the walk up may be a helper method: grp.upperMostParent().getQuotaAllocations(...)
+		viaHelperTop := false
+		var topMost Atom
+		if hc, _, isCall := CallResult(recv); isCall {
+			if h := hc.Common().StaticCallee(); h != nil && h.Pkg == vqf.Pkg && len(h.Blocks) > 0 && len(hc.Common().Args) == 1 && VParam(vqf, 0)(hc.Common().Args[0]) {
+				c.touch(h)
+				okTop, okStart, nl := true, true, 0
+				for _, hr := range ReturnsOf(h) {
+					nl++
+					rv := hr.Results[0]
+					top := Cmp("upperParent.parentGroup==nil", VFieldOf(fParent, func(v ssa.Value) bool { return v == rv || Strip(v) == Strip(rv) }), token.EQL, isNilVal)
+					q := ReachQ{Fn: h, CutEdge: AtomEdges(top), Sink: SinkIs(hr)}
+					if CountAtomEdges(h, top) == 0 || q.Run().Found {
+						okTop = false
+					}
+					startsAt := DependsOn(rv, VParam(h, 0)) || ResolvesToParam(rv, h, 0)
+					if ph, ok := Strip(rv).(*ssa.Phi); ok && !startsAt {
+						for _, e := range ph.Edges {
+							if VParam(h, 0)(e) {
+								startsAt = true
+							}
+						}
+					}
+					okStart = okStart && startsAt
+				}
+				c.Check(okTop && nl > 0, pkg+".Group.validateQuotasFit#allocations-from-top-most", cc.Pos(), "the helper returns only a group without a parent", "the helper that finds the top-most group can return a group that still has a parent: sibling sub-trees are then left out of the allocations")
+				c.Check(okStart && nl > 0, pkg+".Group.validateQuotasFit#walk-starts-at-receiver", cc.Pos(), "the walk up starts at the receiver", "the allocations are not gathered from the receiver's own tree")
+				viaHelperTop = true
+			}
+		}
+		if viaHelperTop {
+			goto topDone
+		}
+		topMost = Cmp("upperParent.parentGroup==nil", VFieldOf(fParent, func(v ssa.Value) bool { return v == recv || Strip(v) == Strip(recv) }), token.EQL, isNilVal)
 		c.Guarded(pkg+".Group.validateQuotasFit#allocations-from-top-most", vqf, cc, []Clause{{topMost}}, nil)
 		c.Check(DependsOn(recv, VParam(vqf, 0)) || ResolvesToParam(recv, vqf, 0) || func() bool {
 			ph, ok := Strip(recv).(*ssa.Phi)
@@ -464,6 +497,7 @@ func runC36(c *Ctx) {
 			}
 			return false
 		}(), pkg+".Group.validateQuotasFit#walk-starts-at-receiver", cc.Pos(), "the walk up starts at the receiver", "the allocations are not gathered from the receiver's own tree")
+	topDone:
 	} else {
 		c.Undecided(pkg+".Group.validateQuotasFit#allocations-from-top-most", vqf.Pos(), "expected one getQuotaAllocations call")
 	}
